@@ -114,12 +114,19 @@ POSITIONS = {
     "shipped_tag_arg": "pipeline:\n  - !LinearController {rate: %(h)s}\n  - !VPool\n",
     # the refused document also has a logging section naming a factory: nothing of a refused document may be applied
     "beside_logging_factory": "logging: {version: 1, disable_existing_loggers: false, handlers: {h: {'()': vcanary_cold.handler}}, loggers: {verif.c18: {handlers: [h]}}}\npipeline:\n  - !VPool\nvextra: {a: %(h)s}\n",
+    # under a top-level key that looks "hidden" (a place for anchors): still part of the document
+    "hidden_top_level_key": ".defaults: {a: %(h)s}\npipeline:\n  - !VPool\n",
+    "hidden_top_level_list": ".anchors:\n  - &x %(h)s\npipeline:\n  - !VPool\n",
+    # beside a legacy __type__ mapping that names a module nobody has imported: a refused document imports nothing
+    "beside_type_mapping_in_tag": "pipeline:\n  - !VDeco {a: {__type__: vcanary_cold.fire}, b: %(h)s}\n  - !VPool\n",
+    "beside_type_mapping_eager": "pipeline:\n  - !VDeco\n  - !VPoolNow [{__type__: vcold_pkg.sub.thing}, [%(h)s]]\n",
     # a later document of the same stream (the file is one configuration: everything in it is "the document")
     "second_document": "pipeline:\n  - !VPool\n%(directive)s---\nextra: %(h)s\n",
     "second_document_root": "pipeline:\n  - !VPool\n...\n%(directive)s--- %(h)s\n",
     "third_document": "pipeline:\n  - !VPool\n---\n---\n%(directive)s---\n- [%(h)s]\n",
 }
 MULTI_DOC = ("second_document", "second_document_root", "third_document")
+HIDDEN = ("hidden_top_level_key", "hidden_top_level_list")  # the twin is the document without that key
 BENIGN = "!VSnapLazy {ok: 1}"
 KEY_POSITIONS = ("mapping_key", "lazy_tag_mapping_key", "eager_tag_mapping_key")
 
@@ -271,8 +278,8 @@ def run_product(spec, result):
         hostile = hostile_nodes_by_label()[case["label"]]
         special = {"root": "{pipeline: [!VPool ]}", "pipeline_element": "!VDeco", "pipeline_tail": "!VPool", "mapping_key": "plainkey",
                    "lazy_tag_mapping_key": "plainkey", "eager_tag_mapping_key": "plainkey", "shipped_tag_arg": "2", "merge_value": "{a: 1}"}
-        if case["position"] in MULTI_DOC:
-            twin = "pipeline:\n  - !VPool\n"  # the stream without the later documents
+        if case["position"] in MULTI_DOC or case["position"] in HIDDEN:
+            twin = "pipeline:\n  - !VPool\n"  # the stream without the later documents / without the extra key
         elif case["position"] == "root_tag_on_sections":
             twin = case["text"].replace("--- " + hostile.split(" ")[0], "---")
         else:
